@@ -75,7 +75,7 @@ def is_resource_modified(
 
         if if_range is not None and if_range.etag is not None:
             unmodified = parse_etags(if_range.etag).contains(etag)
-        else:
+        elif if_range is None or if_range.date is None:
             if_none_match = parse_etags(http_if_none_match)
             if if_none_match:
                 # https://tools.ietf.org/html/rfc7232#section-3.2
